@@ -458,3 +458,56 @@ func TestC05_Exhaustive(t *testing.T) {
 	rec.Label("programs", int64(len(progs)))
 	rec.SetExhaustive()
 }
+
+// TestC05_Ladder: short histories over sizes around every power of two from 2^12 to 2^21.
+func TestC05_Ladder(t *testing.T) {
+	rec := evid.New("C05", "c05_ladder", "enumeration: histories {Malloc a (lazy); WriteBinary b; Flush}, {WriteBinary a; Flush; Malloc b; Flush}, {Malloc a; Malloc b (lazy); Flush; WriteBinary a; Flush} for all a, b in {2^k-1, 2^k, 2^k+1, 2^k+2^(k-1) : k = 12..21} with a+b <= 5 MiB, on an io.Writer-backed and a bytes-backed writer; distinct by construction")
+	defer rec.Flush()
+	var sizes []int
+	for k := 12; k <= 21; k++ {
+		sizes = append(sizes, 1<<k-1, 1<<k, 1<<k+1, 1<<k+1<<(k-1))
+	}
+	type pair struct{ a, b int }
+	var pairs []pair
+	for _, a := range sizes {
+		for _, b := range sizes {
+			if a+b <= 5<<20 {
+				pairs = append(pairs, pair{a, b})
+			}
+		}
+	}
+	var failed bool
+	lock := make(chan struct{}, 1)
+	parallelFor(len(pairs), func(i int, bt *evid.Batch) {
+		if failed {
+			return
+		}
+		a, b := pairs[i].a, pairs[i].b
+		progs := [][]WOp{
+			{{"lazy", a}, {"writebin", b}, {"flush", 0}},
+			{{"writebin", a}, {"flush", 0}, {"malloc", b}, {"flush", 0}},
+			{{"malloc", a}, {"lazy", b}, {"flush", 0}, {"writebin", a}, {"flush", 0}},
+		}
+		for _, ops := range progs {
+			for _, bw := range []bool{false, true} {
+				c := WriterCase{Bytes: bw, InitLen: 3, InitCap: 64, Ops: ops}
+				var cv cov
+				v := checkWriterCase(c, &cv)
+				bt.Evals++
+				bt.Distinct++
+				bt.Nontrivial++
+				if v != nil {
+					lock <- struct{}{}
+					if !failed {
+						failed = true
+						failEnum(t, rec, "c05_writer_history", c, v)
+					}
+					<-lock
+					return
+				}
+			}
+		}
+	}, rec)
+	rec.Sample(WriterCase{Ops: []WOp{{"lazy", 1 << 20}, {"writebin", 1<<20 + 1<<19}, {"flush", 0}}})
+	rec.SetExhaustive()
+}
